@@ -1049,9 +1049,15 @@ def gen_longchain(seed, idbase=0, nkeys=4500, name="longchain"):
     for k in keys:
         s.op("put", h=1, k=k, v=v1)
     s.op("len", h=1)
+    s.op("flush", h=1)
+    s.op("digest", dir="d", name="m", tag="len0")
     for k in keys[::3]:
         s.op("put", h=1, k=k, v=v2)
     s.op("len", h=1)
+    # every one of these puts found its key and wrote a value of the same slot size in place: no file got longer
+    s.op("flush", h=1)
+    s.op("digest", dir="d", name="m", tag="len1")
+    s.op("note", conj="C06.bounded", same=["len0", "len1"], lens=True)
     for k in keys[:6] + keys[-6:] + rng.sample(keys, 20):
         s.op("get", h=1, k=k)
     for k in keys[1::50]:
@@ -1569,7 +1575,7 @@ def gen_twice(seed, idbase=0, nops=150, nb=("BucketsSize", 32), kt="bytes", bufs
                 s.op("bulk_del", h=1, ks=k)
             else:
                 s.op(o, h=1, ks=k, vs=v)
-            if rep == "B" and rng.random() < 0.04:
+            if rep == "B" and (rng.random() < 0.04 or (n < 8 and upd.index((o, k, v)) == 10)):
                 # replica B closes everything and opens the map again (in-process or in a new process)
                 s.op(rng.choice(["drop_all", "new_process"]))
                 s.op("open_db", db=0, dir=d)
@@ -1591,6 +1597,14 @@ def gen_twice(seed, idbase=0, nops=150, nb=("BucketsSize", 32), kt="bytes", bufs
                     s.op("bulk_get", h=1, ks=[rng.choice(keys) for _ in range(3)])
                 else:
                     s.op("read_fill_buffer", h=1)
+        if rep == "B" and seed % 2 == 0:
+            # the last session of replica B only reads: everything is closed, opened again, looked at and closed
+            s.op("drop_all")
+            s.op("open_db", db=0, dir=d)
+            s.op("map", h=1, db=0, name="m", kt=kt)
+            s.op("len", h=1)
+            s.op("get", h=1, k=rng.choice(keys))
+            s.op("iter", h=1, flavour=rng.choice(FLAVOURS))
         s.op("dump", h=1)
         s.op("new_process")
     s.op("digest", dir="dA", name="m", tag="repA")
@@ -1749,8 +1763,19 @@ def gen_bulk(seed, idbase=0, nops=200, kt="bytes", nb=("BucketsSize", 16), name=
         rng.shuffle(ks)
         return ks
 
+    intk = [k for k in keys if k in s.intkeys]
     for i in range(nops):
         r = rng.random()
+        if kt in ("string", "bytes") and i % 12 == 5:
+            # the map addressed by integers: put_from_iter builds the keys BY VALUE, the other calls by reference
+            ks = rng.sample(intk, rng.randrange(1, len(intk) + 1))
+            s.op("put_from_iter", h=1, ks=ks, vs=[rng.choice(vids) for _ in ks], via="int")
+            s.op("bulk_get", h=1, ks=ks, via="int")
+            s.op("get", h=1, k=ks[0], via="int")
+            s.op("get", h=1, k=ks[0])
+            if rng.random() < 0.5:
+                s.op("bulk_del", h=1, ks=ks[:2], via="int")
+            continue
         if i % 25 == 7:
             # the "rewrite everything" idiom: put_from_iter fed by the map's own iterator / by another handle's
             s.op("put_from_iter_self", h=1, src=rng.choice([1, 2]), flavour=rng.choice(["iter", "iter_mut", "into_iter"]))
